@@ -57,7 +57,7 @@ class _Rewrite(ast.NodeTransformer):
             return ast.copy_location(call, node)
         return node
 
-    _SHIMMED_MODULES = {"struct": "sx_struct_", "array": "sx_array_"}
+    _SHIMMED_MODULES = {"struct": "sx_struct_", "array": "sx_array_", "codecs": "sx_codecs_"}
 
     def visit_Import(self, node):
         # `import struct` / `import array`: the name is rebound to the proxy-aware module right away, so that objects created at
@@ -72,9 +72,9 @@ class _Rewrite(ast.NodeTransformer):
     def visit_ImportFrom(self, node):
         out = [node]
         if node.level == 0 and node.module in self._SHIMMED_MODULES:
-            shim = shims.StructShim if node.module == "struct" else shims.ArrayModShim
+            shim = {"struct": shims.StructShim, "array": shims.ArrayModShim, "codecs": shims.CodecsShim}[node.module]
             for a in node.names:
-                if a.name != "*" and hasattr(shim, a.name):
+                if a.name != "*" and a.name in _public_names(shim):
                     out.append(ast.copy_location(ast.Assign(
                         targets=[ast.Name(id=a.asname or a.name, ctx=ast.Store())],
                         value=ast.Attribute(value=ast.Name(id=self._SHIMMED_MODULES[node.module], ctx=ast.Load()), attr=a.name, ctx=ast.Load())), node))
@@ -160,8 +160,19 @@ class Loader(importlib.machinery.SourceFileLoader):
         g["sx_sub_"] = shims.sub_shim
         g["sx_struct_"] = shims.StructShim
         g["sx_array_"] = shims.ArrayModShim
+        g["sx_codecs_"] = shims.CodecsShim
         super().exec_module(module)
         install(module)
+
+
+def _public_names(shim):
+    """names a shim class overrides itself (a `from module import name` of anything else keeps the real object)"""
+    out = set()
+    for c in shim.__mro__:
+        if c is object:
+            continue
+        out.update(k for k in c.__dict__ if not k.startswith("_"))
+    return out
 
 
 class Finder(importlib.abc.MetaPathFinder):
@@ -191,6 +202,9 @@ def install(mod):
         g["struct"] = shims.StructShim
     if g.get("array") is _a:
         g["array"] = shims.ArrayModShim
+    import codecs as _c
+    if g.get("codecs") is _c:
+        g["codecs"] = shims.CodecsShim
     g["chr"] = shims.chr_shim
     g["ord"] = shims.ord_shim
     g["int"] = shims.IntShim
